@@ -73,6 +73,7 @@ def gen_world(rng, prop, long_dim=False):
     # typed dimensions promise a conversion of the labels found in the table: ints written as text, number-like strings given as ints
     layout["label_repr"] = {d["name"]: (rng.choice(["native", "native", "converted"]) if d["dtype"] in ("int", "str") else "native") for d in dims}
     layout["row_index"] = rng.weighted([("range", 4), ("permuted", 2), ("offset", 1)])
+    layout["int_values"] = rng.chance(0.15)  # whole-number values in an integer typed column
     return {"dims": dims, "zeros": zeros, "vseed": rng.randint(0, 10 ** 6), "layout": layout, "medium": medium,
             "consumer": consumer, "flags": flags, "storage": rng.weighted([("C", 3), ("F", 2), ("einsum_view", 2), ("sliced", 1)])}
 
@@ -89,6 +90,8 @@ def make_values(world, shape):
     size = int(np.prod(shape)) if shape else 1
     rs = np.random.RandomState(world["vseed"] % 2 ** 31)
     vals = 5000.25 + 0.5 * rs.permutation(size)
+    if world["layout"].get("int_values"):
+        vals = 5000.0 + 2.0 * rs.permutation(size)
     for z in world["zeros"]:
         vals[z % size] = 0.0
     return vals.reshape(shape)
@@ -203,6 +206,10 @@ def to_dataframe(frame, index, layout=None, dims=None):
                 df[c["header"]] = [str(int(v)) for v in col]
             elif d.dtype is str and all(str(v).isdigit() for v in col):
                 df[c["header"]] = [int(v) for v in col]
+        if layout.get("int_values"):
+            for c in frame.cols:
+                if c["role"] in ("value", "wide") and not df[c["header"]].isna().any():
+                    df[c["header"]] = df[c["header"]].astype("int64")
         ri = layout.get("row_index", "range")
         if ri == "permuted" and len(df) > 1:
             df.index = list(np.random.RandomState(len(df)).permutation(len(df)))
